@@ -157,6 +157,21 @@ def r12(F):
     return r
 
 
+def r12b(F):
+    r = RuleResult("R12b", "nothing is written after a YAML document",
+                   "in YamlConverter::write no write to the output follows the serializer call: a line added after the document becomes "
+                   "content of a trailing `|+` block scalar (a final string ending in two newlines is read back with three)", floor=1)
+    fn = F.fn("ucglib::convert::yaml::YamlConverter::write")
+    ser = [(b, t) for b, t in fn.calls() if callee(t).startswith("serde_yaml::") and "to_writer" in callee(t)]
+    need(len(ser) == 1, "YamlConverter::write: serializer call not found")
+    after = cfg.reachable(fn, ser[0][1]["t"])
+    writes = [(b, t) for b, t in fn.calls() if b in after and callee(t).endswith(("::write_fmt", "::write_all", "::write_str", "::write"))]
+    r.inst("yaml:no-trailing-write", fn.where(ser[0][0]), not writes,
+           "the document ends with the serializer's own newline" if not writes else
+           "%d write(s) after serde_yaml::to_writer (first at %s): the YAML text is no longer the serializer's document" % (len(writes), fn.where(writes[0][0])))
+    return r
+
+
 def r70(F):
     r = RuleResult("R70", "output only through the serializers",
                    "no Val payload is hand-formatted into the output of the json/yaml/toml/yamlmulti converters: formatted writes "
@@ -186,4 +201,4 @@ def r70(F):
     return r
 
 
-RULES = [r10, r11, r12, r64, r70]
+RULES = [r10, r11, r12, r12b, r64, r70]
